@@ -33,6 +33,20 @@ CHECKS["C05"] = dict(
     note="Per-window peaks are taken from fresh HvsrCurve objects (judged by C08); curve sets outside the shape "
          "alphabet, more than 5 windows and histories beyond depth 3 are not covered.")
 
+CHECKS["C06"] = dict(
+    engine="E1", section="4/C06",
+    text="BFS (depth 2) over histories of manual rejections, range updates and frequency_domain_window_rejection "
+         "calls for every (n, max_iterations, distribution_fn, distribution_mc, range) of a finite menu on real "
+         "HvsrTraditional and 2-azimuth HvsrAzimuthal objects; every rejection transition is stepped alongside a "
+         "reference implementation of the Cox et al. loop and compared on the returned iteration count, the final "
+         "masks and, iteration by iteration, the DEBUG trace logged by the implementation; independently it checks "
+         "that no window is re-accepted, count <= max_iterations, and invariance under window permutation and "
+         "amplitude rescaling.",
+    note="Calls on which the reference leaves the algorithm's domain (fewer than two peaks, mean curve without peak) "
+         "are only checked for monotonicity; threshold comparisons within 1e-9 are knife-edge and not compared; "
+         "per-window and mean-curve peaks come from HvsrCurve (judged by C08); the exact-zero early return follows "
+         "the original implementation.")
+
 NOT_APPLICABLE = []
 
 PENDING = ["C01", "C02", "C03", "C04", "C05", "C06", "C07", "C09", "C10", "C11", "C12", "C13",
